@@ -31,13 +31,23 @@ CHECKS["C05"] = {
             "final-sample clamp. Evidence, not proof.",
     "note": "bit-exact comparison of two runs of the same code; raising calls skipped and counted",
 }
+CHECKS["C10"] = {
+    "engine": "AuditWorld", "ref": "DESIGN.md 4 (C10)",
+    "technique": "deterministic simulation of whole multi-round audits (redraw / continue / rebuilt state) with injected "
+                 "auditor and voting-system faults; history oracle: supersets, prefix-extension of every assertion's data, "
+                 "monotone risk, sticky confirmation; shrinking + replay",
+    "text": "seeded search over elections, fault plans and round schedules run on the real pipeline (phantoms, pooling, "
+            "sampler, lookup, ordering, data, p-values); the oracle is evaluated on the recorded history after every round. "
+            "Evidence, not proof.",
+    "note": "domain: style-based sampling, or style off with homogeneous styles; polling rounds use a stub permutation of "
+            "manifest positions; NaN risk read as 1",
+}
 # claimed in DESIGN.md but not built yet: listed as not applicable *for now* with the honest reason
 NA_EXTRA = {
     "C03": "check under construction (DESIGN 4)",
     "C06": "check under construction (DESIGN 4)",
     "C08": "check under construction (DESIGN 4)",
     "C09": "check under construction (DESIGN 4)",
-    "C10": "check under construction (DESIGN 4)",
     "C16": "check under construction (DESIGN 4)",
     "C17": "check under construction (DESIGN 4)",
     "C18": "check under construction (DESIGN 4)",
